@@ -9,6 +9,7 @@ require (
 	github.com/cosmos/cosmos-sdk v0.47.10
 	github.com/gogo/protobuf v1.3.2
 	github.com/sentinel-official/hub/v12 v12.0.0
+	google.golang.org/grpc v1.61.0
 )
 
 require (
@@ -155,7 +156,6 @@ require (
 	google.golang.org/genproto v0.0.0-20240102182953-50ed04b92917 // indirect
 	google.golang.org/genproto/googleapis/api v0.0.0-20231212172506-995d672761c0 // indirect
 	google.golang.org/genproto/googleapis/rpc v0.0.0-20240108191215-35c7eff3a6b1 // indirect
-	google.golang.org/grpc v1.61.0 // indirect
 	google.golang.org/protobuf v1.32.0 // indirect
 	gopkg.in/ini.v1 v1.67.0 // indirect
 	gopkg.in/yaml.v2 v2.4.0 // indirect
